@@ -39,7 +39,7 @@ def evaluate(mod, cases, workdir):
     return bad, nshards, secs
 
 
-def shrink(mod, case, subs, workdir, rounds=12):
+def shrink(mod, case, subs, workdir, rounds=6):
     """Greedy shrinking: each round evaluates all smaller candidates in one coqc call."""
     if not hasattr(mod, 'shrink_candidates'):
         return case, subs
@@ -119,7 +119,7 @@ def run(prop, tier, seed):
                     known_printed.append(f"KNOWN-FINDING: property={prop} {kf['what']}")
                 continue
             violations.append((payload, ''))
-            if len(violations) >= 5:
+            if len(violations) >= 3:
                 break
         # known findings that are demonstrated by a dedicated probe rather than by a disagreement
         if hasattr(mod, 'known_probe'):
